@@ -255,6 +255,7 @@ var lexPieces = []string{
 	"\xa0", "\x85", " \xa0", "\n\x85", "\ufeff", "00e5", "000e-3", "00E0", "0.0e5", "00.5e1", "0e5",
 	"1e0002147483647", "1e-0002147483647", "1e00000000309", "1e000000", "2e+0000000000000000001",
 	"\xc0\xbb", "\xc0\xa7", "\xc1\x9c", "\xc0\x8a", "\xc0\xa2", "'a\xc0\xa7; b'", "1or", "3by", "7in", "2desc", "1e5x", "0x1g",
+	"T | take 1e1000000000000000", "T | top 1e2147483648 by a", "T | limit 2.5e1000000000000", "T | take 1E+9999999999", "1e9999999999",
 	"tas\u212a", "\u212a", "\u0130", "\u017f", "\u212b", "K\u212a", "1e19", "12E18", "1.6e19", "9223372036854775808.0", "18446744073709551615.0", "1.8446744073709552e19",
 	"'\u65e5\u65e5\u65e5\u65e5\u65e5\u65e5\u65e5\u65e5\u65e5\u65e5\u65e5\u65e5\u65e5\u65e5\u65e5\u65e5\u65e5\u65e5\u65e5\u65e5\u65e5\u65e5'", "`\U0001f600\U0001f600\U0001f600\U0001f600\U0001f600\U0001f600\U0001f600\U0001f600\U0001f600\U0001f600\U0001f600\U0001f600\U0001f600\U0001f600\U0001f600\U0001f600\U0001f600`", "'\u65e5\u65e5\u65e5\u65e5\u65e5\u65e5\u65e5\u65e5\u65e5\u65e5\u65e5\u65e5\u65e5\u65e5\u65e5\u65e5\u65e5\u65e5\u65e5\u65e5\u65e5\u65e5\u65e5\u65e5\u65e5",
 	"len_src_len547 src_len_rows68", "rows_evt_src821 len_addr_len723", "src_path_time86 flag_src_evt854", "name_name_rows0 size_src_len421", "dst_src_host256 read_read_cost8", "evt_src_name591 code_src_len575",
